@@ -103,6 +103,13 @@ class Stats:
                                                  info.get("sample", case)))
         for k, v in (info.get("excluded") or {}).items():
             self.excluded[k] += v
+        # sub-evaluations of one generated case (e.g. every rotation offset of a kernel)
+        for subkey, nt in info.get("sub", ()):
+            self.evaluations += 1
+            if nt:
+                self.nontrivial.add(case_hash(subkey))
+        if any(nt for _, nt in info.get("sub", ())) and len(self.samples) < self.max_samples:
+            self.samples.append(jsonable(sample if sample is not None else info.get("sample", case)))
 
     def to_dict(self):
         return {
